@@ -258,6 +258,10 @@ func (e *Enc) encodeInstr(b *ssa.BasicBlock, ins ssa.Instruction, st *State) {
 			e.safe("safe:idx", e.idxInRange(idx, fmt.Sprintf("(sl.len %s)", s)), ins.Pos())
 			e.lv[ins] = &lvalue{base: fmt.Sprintf("(sl.arr %s)", s), root: xt.Elem(), elems: true,
 				path: []sel{{isIdx: true, idx: fmt.Sprintf("(idx.add (sl.off %s) %s)", s, idx)}}}
+			// make the accessor term available to quantified facts about this slice
+			k, ks := e.elemsKey(xt.Elem())
+			arr := fmt.Sprintf("(select %s (sl.arr %s))", e.get(st, k, ks), s)
+			e.assume(fmt.Sprintf("(= %s (select %s (idx.add (sl.off %s) %s)))", e.slGet(xt.Elem(), arr, fmt.Sprintf("(sl.off %s)", s), idx), arr, s, idx))
 		case *types.Pointer:
 			at := xt.Elem().Underlying().(*types.Array)
 			base := e.lvalOf(ins.X)
@@ -795,7 +799,11 @@ func (e *Enc) encSlice(ins *ssa.Slice, st *State) {
 			hi = e.toIdx(ins.High)
 		}
 		e.safe("safe:slice", fmt.Sprintf("(and (idx.le idx.zero %s) (idx.le %s %s) (idx.le %s (sl.cap %s)))", lo, lo, hi, hi, x), ins.Pos())
-		e.setVal(ins, fmt.Sprintf("(mkslice (sl.arr %s) (idx.add (sl.off %s) %s) (idx.sub %s %s) (idx.sub (sl.cap %s) %s))", x, x, lo, hi, lo, x, lo))
+		if lo == zero {
+			e.setVal(ins, fmt.Sprintf("(mkslice (sl.arr %s) (sl.off %s) %s (sl.cap %s))", x, x, hi, x))
+		} else {
+			e.setVal(ins, fmt.Sprintf("(mkslice (sl.arr %s) (idx.add (sl.off %s) %s) (idx.sub %s %s) (idx.sub (sl.cap %s) %s))", x, x, lo, hi, lo, x, lo))
+		}
 	case *types.Pointer:
 		at := xt.Elem().Underlying().(*types.Array)
 		n := e.st.idxLit(at.Len())
